@@ -75,7 +75,8 @@ def run_session(case):
     w = sim_net.new_world()
     w.pktinfo = bool(case.get("pktinfo", True))
     w.sockname = tuple(case.get("sockname", ["::", 69, 0, 0]))
-    w.transfer_plans = [case.get("script", [])]
+    more = case.get("more") or []
+    w.transfer_plans = [case.get("script", [])] + [m.get("script", []) for m in more]
     calls = []
     cleanup = []
 
@@ -116,8 +117,13 @@ def run_session(case):
     try:
         server.start()
         main = w.main_sockets[0]
-        main.push(bytes.fromhex(case["datagram"]), sim_net.CLIENT_ADDR, case.get("dst"))
-        main.wait_processed(1)
+        marks = []
+        datagrams = [case["datagram"]] + [m["datagram"] for m in more]
+        for i, dg in enumerate(datagrams):
+            m0, c0, t0 = len(w.main_log), len(calls), len(w.threads)
+            main.push(bytes.fromhex(dg), sim_net.CLIENT_ADDR, case.get("dst"))
+            main.wait_processed(i + 1)
+            marks.append((m0, len(w.main_log), c0, len(calls), t0, len(w.threads)))
         # transfer threads were created by the request-port thread before it asked for the next
         # datagram; join them (they run on virtual time, so this is quick)
         for th in list(w.threads)[1:]:
@@ -142,6 +148,16 @@ def run_session(case):
     if any(w.transfers[k].runaway for k in w.transfers):
         obs["runaway"] = True
     obs["script_left"] = [len(w.transfers[k].script) for k in sorted(w.transfers)]
+    if more:
+        # one observation per datagram (they were pushed one after the other; their transfers ran concurrently)
+        parts = []
+        for (m0, m1, c0, c1, t0, t1) in marks:
+            started = [k for k in range(t0, t1) if k in w.transfers]
+            parts.append({"main": [e for e in w.main_log[m0:m1] if e[0] != "recv"],
+                          "transfers": [w.transfers[k].log for k in started],
+                          "calls": calls[c0:c1], "threads_alive": obs["threads_alive"],
+                          "runaway": any(w.transfers[k].runaway for k in started)})
+        obs["parts"] = parts
     return obs
 
 
